@@ -1,0 +1,16 @@
+//go:build verif
+
+package fasthttp
+
+// Verification-harness accessors for the connection accounting (C12). Add-only, compiled only with -tags verif.
+
+// VerifPerIPCount returns the per-IP connection counter for ip (0 when the key is absent).
+func (s *Server) VerifPerIPCount(ip uint32) int {
+	cc := &s.perIPConnCounter
+	cc.lock.Lock()
+	defer cc.lock.Unlock()
+	return cc.m[ip]
+}
+
+// VerifOpenRaw returns the raw s.open counter (open connections plus one per running Serve loop).
+func (s *Server) VerifOpenRaw() int32 { return s.open.Load() }
